@@ -428,6 +428,90 @@ func (c *Ctx) bigDivMod(x, y *Term) (*Term, *Term) {
 	return q2, r2
 }
 
+// bigText: the text of the big-sorted integer x in the given base (2..36), as
+// math/big and strconv spell it: '-' for negatives, no prefix, no leading
+// zeros, lower-case (or upper-case) letters. A symbolic x forks on its sign and
+// on its number of digits; each digit is then a term of x. Values of more than
+// bigTextMaxDigits digits are outside the model.
+const bigTextMaxBits = 200
+
+func (c *Ctx) bigText(x *Term, base int, upper bool) *StrVal {
+	if x.IsConst() {
+		v := x.C
+		if x.S.K == KBV {
+			v = x.SignedVal()
+		}
+		t := v.Text(base)
+		if upper {
+			t = strings.ToUpper(t)
+		}
+		return c.str(t)
+	}
+	neg, _ := c.bigSign(x)
+	isNeg := c.decide(neg)
+	ax := x
+	if isNeg {
+		ax = c.bigNeg(x)
+	}
+	bits := bigTextMaxBits
+	if !c.IntMode && c.BigW-1 < bits {
+		bits = c.BigW - 1
+	}
+	limit := pow2(bits)
+	b := big.NewInt(int64(base))
+	pw := big.NewInt(int64(base)) // base^n
+	n := 1
+	for {
+		if pw.Cmp(limit) >= 0 {
+			// every value of the model width has at most n digits
+			break
+		}
+		if c.decide(c.bigLt(ax, c.bigConst(pw))) {
+			break
+		}
+		n++
+		pw = new(big.Int).Mul(pw, b)
+	}
+	if c.IntMode && pw.Cmp(limit) >= 0 {
+		c.modelGuard(c.bigLt(ax, c.bigConst(pw)), "integer text of more than 200 bits is outside the model")
+	}
+	var out []*Term
+	if isNeg {
+		out = append(out, c.byteT('-'))
+	}
+	letter := byte('a')
+	if upper {
+		letter = 'A'
+	}
+	// digits from the least significant one by repeated division by the base
+	// (chained div/mod by one small constant keeps the queries linear and easy)
+	digits := make([]*Term, n)
+	q := ax
+	for i := n - 1; i >= 0; i-- {
+		var d *Term
+		q, d = c.bigDivMod(q, c.bigConst(b))
+		digits[i] = d
+	}
+	for i := 0; i < n; i++ {
+		d := digits[i]
+		var ch *Term
+		if c.IntMode {
+			ch = IAdd(d, IntConst64('0'))
+			if base > 10 {
+				ch = Ite(ILt(d, IntConst64(10)), ch, IAdd(d, IntConst64(int64(letter)-10)))
+			}
+		} else {
+			d8 := Extract(7, 0, d)
+			ch = BVAdd(d8, BVConst64('0', 8))
+			if base > 10 {
+				ch = Ite(BVUlt(d8, BVConst64(10, 8)), ch, BVAdd(d8, BVConst64(int64(letter)-10, 8)))
+			}
+		}
+		out = append(out, ch)
+	}
+	return &StrVal{B: out}
+}
+
 func (c *Ctx) bigDivZero(y *Term) {
 	_, z := c.bigSign(y)
 	c.panicUnless(Not(z), "divide", "division by zero (math/big)")
@@ -697,17 +781,44 @@ func registerBigModels() {
 		return r
 	}
 	m["(*math/big.Int).String"] = func(c *Ctx, fn *ssa.Function, a []Value) Value {
-		x := c.bigOf(a[0])
-		if x.IsConst() {
-			v := x.C
-			if x.S.K == KBV {
-				v = x.SignedVal()
-			}
-			return c.str(v.String())
-		}
-		return c.str("<bigint>")
+		return c.bigText(c.bigOf(a[0]), 10, false)
 	}
-	m["(*math/big.Int).Text"] = m["(*math/big.Int).String"]
+	m["(*math/big.Int).Text"] = func(c *Ctx, fn *ssa.Function, a []Value) Value {
+		base, ok := c.constInt(a[1].(*Term), true)
+		if !ok {
+			base = c.concretize(a[1].(*Term), true, -1<<31, 1<<31, "big.Int.Text base")
+		}
+		if base < 2 || base > big.MaxBase {
+			c.goPanic("big", fmt.Sprintf("invalid base %d", base))
+		}
+		if base > 36 {
+			c.unsupported("big.Int.Text base > 36")
+		}
+		return c.bigText(c.bigOf(a[0]), int(base), false)
+	}
+	m["strconv.FormatInt"] = func(c *Ctx, fn *ssa.Function, a []Value) Value {
+		base, ok := c.constInt(a[1].(*Term), true)
+		if !ok {
+			base = c.concretize(a[1].(*Term), true, -1<<31, 1<<31, "strconv.FormatInt base")
+		}
+		if base < 2 || base > 36 {
+			c.goPanic("strconv", "strconv: illegal AppendInt/FormatInt base")
+		}
+		return c.bigText(c.bigFromInt(a[0].(*Term), 64, true), int(base), false)
+	}
+	m["strconv.FormatUint"] = func(c *Ctx, fn *ssa.Function, a []Value) Value {
+		base, ok := c.constInt(a[1].(*Term), true)
+		if !ok {
+			base = c.concretize(a[1].(*Term), true, -1<<31, 1<<31, "strconv.FormatUint base")
+		}
+		if base < 2 || base > 36 {
+			c.goPanic("strconv", "strconv: illegal AppendInt/FormatInt base")
+		}
+		return c.bigText(c.bigFromInt(a[0].(*Term), 64, false), int(base), false)
+	}
+	m["strconv.Itoa"] = func(c *Ctx, fn *ssa.Function, a []Value) Value {
+		return c.bigText(c.bigFromInt(a[0].(*Term), 64, true), 10, false)
+	}
 	m["(*math/big.Int).SetString"] = func(c *Ctx, fn *ssa.Function, a []Value) Value {
 		s := a[1].(*StrVal)
 		base, okb := c.constInt(a[2].(*Term), true)
@@ -993,11 +1104,86 @@ func (c *Ctx) fmtResult(a []Value, fmtIdx int) *StrVal {
 	for i := 0; i < args.Len; i++ {
 		gv, ok := c.goValue(args.get(i))
 		if !ok {
+			if r := c.fmtSymbolic(format, args); r != nil {
+				return r
+			}
 			return fs
 		}
 		gargs = append(gargs, gv)
 	}
 	return c.str(fmt.Sprintf(format, gargs...))
+}
+
+// fmtSymbolic formats when some operand is a symbolic integer (a Go integer
+// or a *big.Int) under one of the plain verbs %d %x %X %o %b; every verb of
+// the format must be a plain one-letter verb and every other operand concrete.
+// Returns nil when the format is outside that fragment.
+func (c *Ctx) fmtSymbolic(format string, args SliceVal) *StrVal {
+	var out []*Term
+	ai := 0
+	for i := 0; i < len(format); i++ {
+		ch := format[i]
+		if ch != '%' {
+			out = append(out, c.byteT(ch))
+			continue
+		}
+		i++
+		if i >= len(format) {
+			return nil
+		}
+		verb := format[i]
+		if verb == '%' {
+			out = append(out, c.byteT('%'))
+			continue
+		}
+		if !(verb >= 'a' && verb <= 'z' || verb >= 'A' && verb <= 'Z') || ai >= args.Len {
+			return nil
+		}
+		arg := args.get(ai)
+		ai++
+		if gv, ok := c.goValue(arg); ok {
+			out = append(out, c.str(fmt.Sprintf("%"+string(verb), gv)).B...)
+			continue
+		}
+		base := 0
+		switch verb {
+		case 'd':
+			base = 10
+		case 'x', 'X':
+			base = 16
+		case 'o':
+			base = 8
+		case 'b':
+			base = 2
+		default:
+			return nil
+		}
+		ifc, ok := arg.(Iface)
+		if !ok || ifc.T == nil {
+			return nil
+		}
+		var x *Term
+		if p, isPtr := ifc.V.(Ptr); isPtr && !p.IsNil() {
+			b, isBig := p.load().(*BigVal)
+			if !isBig {
+				return nil
+			}
+			x = b.T
+		} else if t, isT := ifc.V.(*Term); isT {
+			w, signed, isInt := intInfo(ifc.T)
+			if !isInt {
+				return nil
+			}
+			x = c.bigFromInt(t, w, signed)
+		} else {
+			return nil
+		}
+		out = append(out, c.bigText(x, base, verb == 'X').B...)
+	}
+	if ai != args.Len {
+		return nil
+	}
+	return &StrVal{B: out}
 }
 
 func registerLibModels() {
